@@ -145,6 +145,114 @@ fn h_rev_empty() {
     ck_reverse(&[0], 0, 0);
     ck_reverse(&[2, 0], 0, 0);
 }
+/// transpose moves the first axis to the end (forward) / the last axis to the front (backward):
+/// forward:  out[j.., i] = in[i, j..]     backward: out[k, i..] = in[i.., k]
+fn plain(shape: &[usize], n: usize) -> (Array<u8>, [u8; 6]) {
+    let buf: [u8; 6] = kani::any();
+    (Array { shape: Shape(shape.to_vec()), data: Data(buf[..n].to_vec()), meta: ArrayMeta(None) }, buf)
+}
+fn rot(shape: &[usize], forward: bool) -> Vec<usize> {
+    // rotate the shape by one, written out (no slice::rotate in the spec)
+    let r = shape.len();
+    let mut w = Vec::with_capacity(r);
+    let mut i = 0;
+    while i < r {
+        w.push(if forward { shape[(i + 1) % r] } else { shape[(i + r - 1) % r] });
+        i += 1;
+    }
+    w
+}
+fn ck_transpose(shape: &[usize], n: usize, forward: bool) {
+    let (mut a, before) = plain(shape, n);
+    a.transpose_depth(0, if forward { 1 } else { -1 });
+    let r = shape.len();
+    assert!(same_usize(&a.shape.0, &rot(shape, forward)) && a.data.len() == n);
+    if r == 2 && n > 0 {
+        let (p, q) = (shape[0], shape[1]);
+        let mut i = 0;
+        while i < p {
+            let mut j = 0;
+            while j < q {
+                assert!(a.data[j * p + i] == before[i * q + j]);
+                j += 1;
+            }
+            i += 1;
+        }
+    }
+    if r == 3 && n > 0 {
+        let (p, q, t) = (shape[0], shape[1], shape[2]);
+        let mut i = 0;
+        while i < p {
+            let mut j = 0;
+            while j < q {
+                let mut k = 0;
+                while k < t {
+                    let src = before[(i * q + j) * t + k];
+                    if forward {
+                        assert!(a.data[(j * t + k) * p + i] == src);
+                    } else {
+                        assert!(a.data[(k * p + i) * q + j] == src);
+                    }
+                    k += 1;
+                }
+                j += 1;
+            }
+            i += 1;
+        }
+    }
+}
+fn ck_transpose_roundtrip(shape: &[usize], n: usize) {
+    let (mut a, before) = plain(shape, n);
+    a.transpose_depth(0, 1);
+    a.transpose_depth(0, -1);
+    assert!(same_usize(&a.shape.0, shape) && same_u8(&a.data.0, &before[..n]));
+}
+//@ id=C08.e3.transpose.2x3 props=C08,C05,C09 level=bounded tier=quick budget=900 bound="shape [2,3]" desc="transpose of a 2x3 matrix: out[j][i] = in[i][j], shape rotated, element count kept"
+#[kani::proof]
+#[kani::unwind(10)]
+fn h_tr_2x3() {
+    ck_transpose(&[2, 3], 6, true);
+}
+//@ id=C08.e3.transpose.2x2_square props=C08,C05,C09 level=bounded tier=quick budget=900 bound="shape [2,2]" desc="transpose of a square matrix (in-place branch)"
+#[kani::proof]
+#[kani::unwind(10)]
+fn h_tr_2x2() {
+    ck_transpose(&[2, 2], 4, true);
+}
+//@ id=C08.e3.transpose.1x2x3_forward props=C08,C05,C09 level=bounded tier=quick budget=1500 bound="shape [1,2,3]" desc="rank-3 transpose: the first axis becomes the last"
+#[kani::proof]
+#[kani::unwind(10)]
+fn h_tr_1x2x3_f() {
+    ck_transpose(&[1, 2, 3], 6, true);
+}
+//@ id=C08.e3.transpose.2x1x3_backward props=C08,C05,C03,C09 level=bounded tier=quick budget=1500 bound="shape [2,1,3]" desc="rank-3 un-transpose: the last axis becomes the first"
+#[kani::proof]
+#[kani::unwind(10)]
+fn h_tr_2x1x3_b() {
+    ck_transpose(&[2, 1, 3], 6, false);
+}
+// (a transpose-then-un-transpose harness did not finish in 25 min; the two directions are specified against
+// explicit index formulas above, from which the round trip follows)
+//@ id=C08.e3.transpose.empty_rank3 props=C08,C05,C03,C09 level=bounded tier=quick budget=900 bound="shapes [0,2,3] and [2,3,0], both directions" desc="transposing an array without elements only rotates the shape — left for transpose, right for un-transpose"
+#[kani::proof]
+#[kani::unwind(10)]
+fn h_tr_empty() {
+    ck_transpose(&[0, 2, 3], 0, true);
+    ck_transpose(&[0, 2, 3], 0, false);
+    ck_transpose(&[2, 3, 0], 0, false);
+}
+//@ id=C05.e3.transpose.marks props=C05,C09 level=bounded tier=quick budget=900 bound="shape [2,2], all flag sets" desc="transpose drops the sortedness marks and the map keys (they no longer describe the rows) and keeps the value marks truthful"
+#[kani::proof]
+#[kani::unwind(10)]
+fn h_tr_marks() {
+    let (mut a, _b, f0, _k) = mk(&[2, 2], 4);
+    kani::assume(truthful(&a));
+    a.transpose_depth(0, 1);
+    assert!(!a.meta.is_sorted_up() && !a.meta.is_sorted_down());
+    assert!(a.meta.map_keys.is_none());
+    assert!(a.meta.flags.bits() & 3 == f0.bits() & 3);
+    assert!(truthful(&a));
+}
 //@ id=C05.e3.meta.mark_helpers props=C05,C09 level=complete tier=quick budget=600 desc="ArrayMeta mark helpers at the bit level: take_sorted_flags / take_value_flags return and clear exactly their group; or_sorted_flags sets only sortedness bits; mark_sorted_* set or clear exactly one bit; reset_flags clears all; an absent meta stays absent unless a bit must be set"
 #[kani::proof]
 fn h_meta_helpers() {
